@@ -49,7 +49,9 @@ RULE = (
     "first task only receives, without heartbeat or receive timeout) x finale (kill, peer close, application close, none), segmentation, latency and timer/I-O "
     "tie-breaks from the tape; in 8 % of the runs one side has autoclose off and its first task, once handed the peer's "
     "CLOSE, lingers 12-500 ms before close() / returning / the next receive() while heartbeat and receive timers are "
-    "armed. Non-trivial: a session was established AND at least two of {close() issued while a "
+    "armed; in 10 % of the runs with a real client its timeouts reach ws_connect() through another accepted spelling "
+    "(ClientWSTimeout(ws_close) + receive_timeout=<float>, float timeout=, or no timeout= at all: the 10 s default), half of "
+    "those with a long receive timeout, a raw peer that stalls on the close handshake and a task that calls close(). Non-trivial: a session was established AND at least two of {close() issued while a "
     "receive() was pending, the connection torn down from the session's own side (counted with kill), peer close frame delivered, peer close frame handed to the application with the session "
     "left open (autoclose off), kill fired, cancel fired inside a pending call, a timer "
     "(receive/close/pong) expired, protocol garbage delivered}. Distinct = interleaving signature."
@@ -225,6 +227,8 @@ def gen(rng, tier, index):
         _slow_close_reply(rng, scn)
     if rng.random() < 0.10:
         _local_teardown(rng, scn)
+    if rng.random() < 0.10 and "cli" in scn:
+        _timeout_api(rng, scn)
     return scn
 
 
@@ -271,6 +275,45 @@ def _slow_close_reply(rng, scn):
         if not any(o[1] == "close" for a in other["actors"] for o in a["ops"]):
             other["actors"] = other["actors"][:2] + [{"ops": [[when, "close", code or 1000]], "finally_close": False,
                                                        "role": "closer"}]
+    if rng.random() < 0.6:
+        scn["faults"] = []
+    if rng.random() < 0.6:
+        scn["finale"]["what"] = "none"
+
+
+# ways in which an application hands the close / receive timeouts to ClientSession.ws_connect()
+#   ws_timeout  timeout=ClientWSTimeout(ws_receive=..., ws_close=...)                       (every other run)
+#   recv_kw     timeout=ClientWSTimeout(ws_close=...), receive_timeout=<float>              (older keyword, still accepted)
+#   float       timeout=<float close timeout>, receive_timeout=<float> if there is one       (older forms, still accepted)
+#   default     no timeout= at all: the documented default close timeout of 10 s; receive_timeout=<float> if there is one
+TIMEOUT_API = ["ws_timeout", "recv_kw", "float", "default"]
+DEFAULT_CLIENT_CLOSE_TIMEOUT = 10.0  # documented default of ws_connect (ClientWSTimeout(ws_close=10.0))
+
+
+def _timeout_api(rng, scn):
+    """The client session gets its timeouts through one of the other accepted spellings of ws_connect()'s arguments.
+    The configured bounds are the same whatever the spelling, and every rule is judged against them.  Half of the
+    time the run is steered towards the timers actually being needed: a receive timeout that is set but long, a raw
+    peer that stalls on the close handshake with the connection kept open, and a task that calls close()."""
+    c = scn["cli"]
+    api = rng.choice(["recv_kw", "recv_kw", "float", "float", "default"])
+    c["timeout_api"] = api
+    if api == "default":
+        c["close_timeout"] = DEFAULT_CLIENT_CLOSE_TIMEOUT
+        if c["heartbeat"] is not None and c["heartbeat"] < 0.3:
+            c["heartbeat"] = 0.3  # ten virtual seconds of 20 ms heartbeats would only stretch the run
+    if rng.random() < 0.5:
+        return
+    if c["receive_timeout"] is None or c["receive_timeout"] < 0.1:
+        c["receive_timeout"] = rng.choice([None, 0.1, 0.5, 0.5, 0.5])
+    if not any(o[1] == "close" for a in c["actors"] for o in a["ops"]):
+        c["actors"] = c["actors"][:2] + [{"ops": [[rng.choice([0, 1, 5, 20, 50]), "close", rng.choice(CLOSE_CODES[:-1])]],
+                                          "finally_close": False, "role": "closer"}]
+    if "peer" in scn:
+        p = scn["peer"]
+        p["script"] = [a for a in p["script"] if a[1] in ("text", "binary", "ping", "pong", "frag")][:3]
+        p["answer_close"] = rng.choice(["never", "never", "delay"])
+        p["close_delay"] = rng.choice([p["close_delay"], 400])
     if rng.random() < 0.6:
         scn["faults"] = []
     if rng.random() < 0.6:
@@ -345,6 +388,20 @@ def enumerate_cases(tier, seed):
     """Directed cases: the named races of the property record, in each world where they apply."""
     rd = [[0, "receive", None], [0, "receive", None]]
     idle = {"actors": [[[0, "iter", None]]]}
+    for api in TIMEOUT_API[1:]:
+        for rt in (None, 0.5):
+            for answer in ("never", "delay", "echo"):
+                # each accepted spelling of ws_connect()'s timeout arguments, with and without a receive timeout,
+                # against a peer that never / late / promptly answers the close frame and keeps the connection open:
+                # close() alone, close() from a second task during a blocked receive(), close() from `finally`
+                cfg = {"timeout_api": api, "receive_timeout": rt, "close_timeout": 0.05}
+                pc = {"answer_close": answer, "close_delay": 400, "tcp_after_close": "keep"}
+                yield _case("C", cli=dict(cfg, actors=[[[3, "close", 1000]]]), peer=pc)
+                yield _case("C", cli=dict(cfg, actors=[rd, [[3, "close", 1001]]]), peer=pc)
+                yield _case("C", cli=dict(cfg, actors=[[[3, "send_str", 5], [2, "close", 4000]]]),
+                            peer=dict(pc, script=[[1, "text", 3]]))
+        yield _case("CS", cli={"timeout_api": api, "receive_timeout": 0.5, "actors": [rd, [[3, "close", 1000]]]},
+                    srv={"autoclose": False, "actors": [[[0, "receive", None], [0, "receive", None], [300, "sleep", None]]]})
     for real, world in (("cli", "C"), ("srv", "S")):
         for how in sorted(set(TEARDOWN[real])):
             for t in (1, 20):
@@ -461,7 +518,9 @@ def enumerate_cases(tier, seed):
                         srv={"autoclose": ac, "actors": [rd, [[d, "close", 4001]]]})
 
 
-ENUM_RULE = ("directed cases: each way of tearing the connection down from the application's own side (session / "
+ENUM_RULE = ("directed cases: each accepted spelling of ws_connect()'s timeout arguments (ClientWSTimeout + "
+             "receive_timeout=, float timeout=, defaults) x receive timeout x peer that never / late / promptly answers the "
+             "close frame; each way of tearing the connection down from the application's own side (session / "
              "connector / response close, transport close / abort) x {blocked receive(), async-for, close() in progress, "
              "sender}; a peer frame delivered around the instant the heartbeat is due, then silence; close() from a second task during a blocked receive() x peer reaction; peer-initiated and "
              "crossing closes x autoclose; autoclose off x heartbeat x 10-200 ms between the peer's CLOSE and the "
@@ -512,6 +571,11 @@ def shrink(scn):
                     # a long pause between two calls (lingering before close()): try half of it
                     na = dict(a, ops=ops[:j] + [[o[0] // 2, o[1], o[2]]] + ops[j + 1:])
                     yield dict(scn, **{sd: dict(s, actors=acts[:i] + [na] + acts[i + 1:])})
+        if s.get("timeout_api", "ws_timeout") != "ws_timeout":
+            # the plain spelling of the timeouts; from the 10 s default to an explicit short close timeout
+            yield dict(scn, **{sd: {k: v for k, v in s.items() if k != "timeout_api"}})
+            if s["timeout_api"] == "default":
+                yield dict(scn, **{sd: dict(s, timeout_api="float", close_timeout=0.05)})
         for k, v in (("heartbeat", None), ("receive_timeout", None), ("autoclose", True), ("autoping", True),
                      ("join", True), ("handler_cancellation", False), ("close_timeout", 0.05)):
             if s.get(k) != v:
@@ -697,8 +761,26 @@ def run(scn, ch, log=False):
 
             net.listen(peer_factory, ADDR[0], ADDR[1])
         if world in ("CS", "C"):
-            cli = sides["cli"] = W.Side("cli", scn["cli"], loop)
             ccfg = scn["cli"]
+            api = ccfg.get("timeout_api", "ws_timeout")
+            if api == "default":
+                # no timeout= argument: the documented default close timeout is the configured bound
+                ccfg = dict(ccfg, close_timeout=DEFAULT_CLIENT_CLOSE_TIMEOUT)
+            cli = sides["cli"] = W.Side("cli", ccfg, loop)
+            rt_, ct_ = ccfg["receive_timeout"], ccfg["close_timeout"]
+            if api == "ws_timeout":
+                tkw = {"timeout": aiohttp.ClientWSTimeout(ws_receive=rt_, ws_close=ct_)}
+            elif api == "recv_kw":
+                tkw = {"timeout": aiohttp.ClientWSTimeout(ws_close=ct_), "receive_timeout": rt_}
+            elif api == "float":
+                tkw = {"timeout": ct_}
+            elif api == "default":
+                tkw = {}
+            else:
+                raise AssertionError("unknown timeout_api " + api)
+            if api in ("float", "default") and rt_ is not None:
+                tkw["receive_timeout"] = rt_
+            probe("timeout_api_" + api)
             net.dns["h.test"] = [ADDR[0]]
 
             async def client_main():
@@ -706,8 +788,7 @@ def run(scn, ch, log=False):
                 session = cli.session = aiohttp.ClientSession(connector=conn)
                 try:
                     ws = await session.ws_connect(
-                        "http://h.test/ws",
-                        timeout=aiohttp.ClientWSTimeout(ws_receive=ccfg["receive_timeout"], ws_close=ccfg["close_timeout"]),
+                        "http://h.test/ws", **tkw,
                         autoclose=ccfg["autoclose"], autoping=ccfg["autoping"], heartbeat=ccfg["heartbeat"], compress=0)
                 except Exception as e:
                     cli.connect_error = e
